@@ -91,7 +91,7 @@ Proof.
               (mkFrame 0 cx topic (if is_nil body then None else Some bh) meta
                  (match t with TOk x => Some x | _ => Some Forever end)) with
       | (Ok f, s') => (HResp 200 (BFrame f), mkH s' (if is_nil body then h_cas st else cas_put bh body (h_cas st)))
-      | (Err _, s') => (HResp 500 BText, mkH s' (if is_nil body then h_cas st else cas_put bh body (h_cas st)))
+      | (Err _, s') => (HResp 400 BText, mkH s' (if is_nil body then h_cas st else cas_put bh body (h_cas st)))
       end = (HResp status b, st') -> h_store st' = h_store st).
     { clear H. intros meta. destruct (append _ _ _) as [[f|e] s'] eqn:E; intros H'; inversion H'; subst.
       - lia.
@@ -131,7 +131,7 @@ Lemma faithful_append : forall st i topic c cx t m body bh,
   (match fst (append (h_store st) i
                 (mkFrame 0 cx topic (http_hash body bh) (http_meta m) (Some (http_ttl t)))) with
    | Ok f => HResp 200 (BFrame f)
-   | Err _ => HResp 500 BText
+   | Err _ => HResp 400 BText
    end,
    mkH (snd (append (h_store st) i
                (mkFrame 0 cx topic (http_hash body bh) (http_meta m) (Some (http_ttl t)))))
@@ -164,7 +164,7 @@ Theorem faithful_append_err : forall st i topic c cx t m body bh e s',
     (mkFrame 0 cx topic (if is_nil body then None else Some bh)
        (match m with MOk j => Some j | _ => None end)
        (Some (match t with TOk x => x | _ => Forever end))) = (Err e, s') ->
-  exists cas', handle true st i (RAppend topic c t m body bh) = (HResp 500 BText, mkH s' cas').
+  exists cas', handle true st i (RAppend topic c t m body bh) = (HResp 400 BText, mkH s' cas').
 Proof.
   intros st i topic c cx t m body bh e s' Hc Ht Hm Ha.
   rewrite (faithful_append st i topic c cx t m body bh Hc Ht Hm).
@@ -198,7 +198,7 @@ Proof. intros. unfold handle. destruct (remove (h_store st) j) as [[u|e] s']; re
 
 Theorem faithful_import : forall st i f,
   handle true st i (RImport (Some f)) =
-  (match fst (insert_frame (h_store st) f) with Ok _ => HResp 200 (BFrame f) | Err _ => HResp 500 BText end,
+  (match fst (insert_frame (h_store st) f) with Ok _ => HResp 200 (BFrame f) | Err _ => HResp 400 BText end,
    mkH (snd (insert_frame (h_store st) f)) (h_cas st)).
 Proof. intros. unfold handle. destruct (insert_frame (h_store st) f) as [[u|e] s']; reflexivity. Qed.
 
@@ -321,34 +321,41 @@ Proof.
   eexists. vm_compute. reflexivity.
 Qed.
 
-(* the two handlers differ on exactly these two shapes of request *)
+(* the two handlers differ only on appends (non-ASCII xs-meta: dropped vs 400; refused by the store:
+   500 vs 400), lookups of an unknown CAS hash (dropped vs 404) and imports the store refuses *)
 Theorem pinned_differs_only_there : forall st i r,
   handle false st i r <> handle true st i r ->
-  (exists topic c t body bh, r = RAppend topic c t MNonAscii body bh) \/
-  (exists h, r = RCasGet (Some h) /\ cas_get h (h_cas st) = None).
+  (exists topic c t m body bh, r = RAppend topic c t m body bh) \/
+  (exists h, r = RCasGet (Some h) /\ cas_get h (h_cas st) = None) \/
+  (exists f e, r = RImport (Some f) /\ fst (insert_frame (h_store st) f) = Err e).
 Proof.
   intros st i r H. destruct r; try (exfalso; apply H; reflexivity).
-  - destruct m; try (exfalso; apply H; reflexivity). left; eauto 6.
+  - left; eauto 8.
   - destruct h as [h|]; [|exfalso; apply H; reflexivity].
     destruct (cas_get h (h_cas st)) eqn:E.
     + exfalso; apply H. unfold handle. rewrite E. reflexivity.
-    + right; eauto.
+    + right; left; eauto.
+  - destruct f as [f|]; [|exfalso; apply H; reflexivity].
+    destruct (insert_frame (h_store st) f) as [[u|e] s'] eqn:E.
+    + exfalso; apply H. unfold handle. rewrite E. reflexivity.
+    + right; right. exists f, e. split; [reflexivity|rewrite E; reflexivity].
 Qed.
 
 (* ---------------------------------------------------------------------------- *)
-(* H5 known finding: a client error answered with 500; and the 4xx half that does hold *)
+(* H5 a frame the store refuses for what it is (unregistered context, xs.context outside the zero
+   context, NUL in the topic) is answered 400 (F13b, fixed in /repo); the pinned code said 500 *)
 
-Theorem validation_error_is_500 : exists st i r st', handle true st i r = (HResp 500 BText, st').
+Theorem pinned_validation_error_is_500 : exists st i r st', handle false st i r = (HResp 500 BText, st').
 Proof.
   exists (mkH (empty_store 0) []), 1, (RAppend [97] (QOk 7) TAbsent MAbsent [] []).
   eexists. vm_compute. reflexivity.
 Qed.
 
 (* in general: any append of an ordinary topic into an unregistered context *)
-Theorem unregistered_ctx_is_500 : forall st i topic cx t m body bh,
+Theorem unregistered_ctx_is_400 : forall st i topic cx t m body bh,
   t <> TBad -> (m = MAbsent \/ exists j, m = MOk j) ->
   is_ctx_topic topic = false -> mem cx (s_ctxs (h_store st)) = false ->
-  fst (handle true st i (RAppend topic (QOk cx) t m body bh)) = HResp 500 BText.
+  fst (handle true st i (RAppend topic (QOk cx) t m body bh)) = HResp 400 BText.
 Proof.
   intros st i topic cx t m body bh Ht Hm Hc Hr.
   rewrite (faithful_append st i topic (QOk cx) cx t m body bh eq_refl Ht Hm). cbn [fst].
@@ -384,26 +391,65 @@ Proof.
       destruct H as [->|[->|[->| ->]]]; eexists; split; reflexivity.
 Qed.
 
-(* conversely, a 400 is only ever given for a syntactically malformed request *)
-Theorem status_400_only_syntax : forall st i r b st',
-  handle true st i r = (HResp 400 b, st') -> syntax_malformed r.
+(* conversely, a 400 is only ever given for a syntactically malformed request or for a frame the
+   store refuses *)
+Definition store_refuses (st : hstate) (i : N) (r : hreq) : Prop :=
+  match r with
+  | RAppend topic c t m body bh =>
+      exists cx meta e s', ctx_of c = Some cx /\
+        append (h_store st) i
+               (mkFrame 0 cx topic (if is_nil body then None else Some bh) meta
+                        (match t with TOk x => Some x | _ => Some Forever end)) = (Err e, s')
+  | RImport (Some f) => exists e s', insert_frame (h_store st) f = (Err e, s')
+  | _ => False
+  end.
+
+Theorem status_400_only_client_error : forall st i r b st',
+  handle true st i r = (HResp 400 b, st') -> syntax_malformed r \/ store_refuses st i r.
 Proof.
   intros st i r b st' H. unfold handle in H. cbv zeta in H. destruct r.
   - inversion H.
-  - destruct opts as [[[l lim] c]|]; [|constructor].
+  - left. destruct opts as [[[l lim] c]|]; [|constructor].
     destruct (read_hist _ _ _ _); inversion H.
-  - destruct c; [| |constructor]; cbn [ctx_of] in H;
-      (destruct t; [| |constructor];
-       (destruct m; try (apply SM_append_meta; unfold bad_meta; tauto);
-        match type of H with context [append ?a ?b ?c] => destruct (append a b c) as [[f|e] s'] end;
-        inversion H)).
-  - destruct i0; try constructor. destruct (get _ _); inversion H.
-  - destruct i0; try constructor. destruct (remove _ _) as [[u|e] s']; inversion H.
-  - destruct c; try constructor; cbn [ctx_of] in H; destruct (head _ _ _); inversion H.
-  - destruct h as [h|]; [|constructor]. destruct (cas_get _ _); inversion H.
-  - destruct body; [constructor|]. cbn [is_nil] in H. inversion H.
-  - destruct f as [f|]; [|constructor]. destruct (insert_frame _ _) as [[u|e] s']; inversion H.
+  - destruct (ctx_of c) as [cx|] eqn:Ec; [|left; destruct c; try discriminate Ec; apply SM_append_ctx].
+    destruct t as [|tt|]; [| |left; apply SM_append_ttl];
+      (destruct m; try (left; apply SM_append_meta; unfold bad_meta; tauto);
+       (match type of H with context [append ?a ?b ?c] =>
+          destruct (append a b c) as [[f|e] s'] eqn:E end;
+        [inversion H| right; cbn [store_refuses]; rewrite Ec; eauto 8])).
+  - left. destruct i0; try constructor. destruct (get _ _); inversion H.
+  - left. destruct i0; try constructor. destruct (remove _ _) as [[u|e] s']; inversion H.
+  - left. destruct c; try constructor; cbn [ctx_of] in H; destruct (head _ _ _); inversion H.
+  - left. destruct h as [h|]; [|constructor]. destruct (cas_get _ _); inversion H.
+  - left. destruct body; [constructor|]. cbn [is_nil] in H. inversion H.
+  - destruct f as [f|]; [|left; constructor].
+    destruct (insert_frame _ _) as [[u|e] s'] eqn:E; [inversion H|].
+    right. cbn [store_refuses]. eauto.
   - inversion H.
+Qed.
+
+(* 5xx is left for one case only: a remove that the store itself fails (impossible for stored frames:
+   their topics carry no NUL) *)
+Theorem status_5xx_only_remove : forall st i r status b st',
+  handle true st i r = (HResp status b, st') -> 500 <= status ->
+  exists j e, r = RRemove (QOk j) /\ fst (remove (h_store st) j) = Err e.
+Proof.
+  intros st i r status b st' H Hs. unfold handle in H. cbv zeta in H. destruct r.
+  - inversion H; subst; lia.
+  - destruct opts as [[[l lim] c]|]; [destruct (read_hist _ _ _ _)|]; inversion H; subst; lia.
+  - destruct (ctx_of c); [|inversion H; subst; lia].
+    destruct t; destruct m; try (inversion H; subst; lia);
+      match type of H with context [append ?a ?b ?c] =>
+        destruct (append a b c) as [[f|e] s'] end; inversion H; subst; lia.
+  - destruct i0; try (inversion H; subst; lia). destruct (get _ _); inversion H; subst; lia.
+  - destruct i0; try (inversion H; subst; lia).
+    destruct (remove (h_store st) i0) as [[u|e] s'] eqn:E; inversion H; subst; [lia|].
+    exists i0, e. split; [reflexivity|rewrite E; reflexivity].
+  - destruct (ctx_of c); [destruct (head _ _ _)|]; inversion H; subst; lia.
+  - destruct h as [h|]; [destruct (cas_get _ _)|]; inversion H; subst; lia.
+  - destruct (is_nil body); inversion H; subst; lia.
+  - destruct f as [f|]; [destruct (insert_frame _ _) as [[u|e] s']|]; inversion H; subst; lia.
+  - inversion H; subst; lia.
 Qed.
 
 (* ---------------------------------------------------------------------------- *)
@@ -443,8 +489,9 @@ Print Assumptions body_hash.
 Print Assumptions pinned_drops.
 Print Assumptions pinned_not_total.
 Print Assumptions pinned_differs_only_there.
-Print Assumptions validation_error_is_500.
-Print Assumptions unregistered_ctx_is_500.
+Print Assumptions pinned_validation_error_is_500.
+Print Assumptions unregistered_ctx_is_400.
 Print Assumptions client_errors_4xx_partial.
-Print Assumptions status_400_only_syntax.
+Print Assumptions status_400_only_client_error.
+Print Assumptions status_5xx_only_remove.
 Print Assumptions demo_run.
